@@ -1088,6 +1088,14 @@ namespace link_layer {
             {
                 this->transmit_pending_security_pdus();
 
+                // everything that is waiting to be sent, is handed to the transmit buffer before the next connection event
+                // is planned, otherwise that event is planned as if there were nothing to transmit
+                if ( state_ == state::connected || state_ == state::connecting )
+                {
+                    transmit_pending_control_pdus();
+                    this->transmit_pending_l2cap_output( connection_data_ );
+                }
+
                 const std::pair< bool, std::uint16_t > pending_instant = { !defered_ll_control_pdu_.empty(), defered_conn_event_counter_ };
 
                 evts.pending_outgoing_data = evts.pending_outgoing_data || this->pending_outgoing_data_available();
@@ -1105,12 +1113,6 @@ namespace link_layer {
                     connection_event_callback::call_connection_event_callback( time_till_next_event );
                 }
             }
-        }
-
-        if ( state_ == state::connected || state_ == state::connecting )
-        {
-            transmit_pending_control_pdus();
-            this->transmit_pending_l2cap_output( connection_data_ );
         }
 
         this->template handle_connection_events< link_layer< Server, ScheduledRadio, Options... > >();
